@@ -12,6 +12,7 @@ package main
 
 import (
 	"bytes"
+	"encoding/hex"
 	"fmt"
 	"os"
 	"path/filepath"
@@ -211,6 +212,139 @@ func c08QueueTie(c *Ctx, base string) {
 			}
 		}
 		q.Close()
+		os.RemoveAll(dir)
+	}
+}
+
+// ---------------------------------------------------------------------------------------------
+// overwrite-remnant family: torn tail, restart, a shorter Put while the redelivered records are
+// still pending (index not empty -> emptyFile keeps the file), restart again.
+// FileUtilsFlush seeks to Offset and writes WITHOUT truncating: unless checkFile cuts the torn tail
+// off, the remnant of the torn record stays behind the new record at a 256-aligned offset, and a
+// torn record whose VALUE embeds an encoded record (payload bytes an attacker controls: tx data
+// inside a block) is then delivered on the next restart although it was never written.
+// ---------------------------------------------------------------------------------------------
+
+type c08W struct {
+	dir string
+	q   *store.FileQueue
+}
+
+func (w *c08W) path() string { return filepath.Join(w.dir, "tmp.data") }
+
+// restart = a new detached queue on the directory (real checkFile -> scanFile)
+func (w *c08W) restart() (line string, recs []c08Rec) {
+	if w.q != nil {
+		w.q.Close()
+	}
+	var err error
+	st := Safe(func() string {
+		w.q, err = store.VerifNewDetachedQueue(w.dir)
+		if err != nil {
+			return c08ErrName(err)
+		}
+		return "ok"
+	})
+	if st != "ok" {
+		return "fail:" + st, nil
+	}
+	for {
+		select {
+		case op := <-w.q.SyncFileDB.WriteChan:
+			recs = append(recs, c08Rec{op.Flg, op.Key, op.Val})
+			// keep it pending: put it back is impossible without reordering; the index entry stays (nobody acknowledges)
+			continue
+		default:
+		}
+		break
+	}
+	fi, _ := os.Stat(w.path())
+	var sb strings.Builder
+	fmt.Fprintf(&sb, "ok off=%d size=%d n=%d", w.q.Offset, fi.Size(), len(recs))
+	for _, r := range recs {
+		sb.WriteByte(' ')
+		sb.WriteString(c08RecStr(r.Flg, r.Key, r.Val))
+	}
+	return sb.String(), recs
+}
+
+func (w *c08W) put(r c08Rec) string {
+	if err := w.q.Put(r.Flg, r.Key, r.Val); err != nil {
+		return "err " + err.Error()
+	}
+	<-w.q.SyncFileDB.WriteChan // stays pending in the index, nobody acknowledges
+	fi, _ := os.Stat(w.path())
+	return fmt.Sprintf("ok off=%d size=%d", w.q.Offset, fi.Size())
+}
+
+func c08RemnantFamily(c *Ctx, base string) {
+	nCases := 6 + c.N/8
+	for it := 0; it < nCases; it++ {
+		dir := filepath.Join(base, fmt.Sprintf("w%d", it))
+		os.MkdirAll(dir, 0755)
+		w := &c08W{dir: dir}
+		// what has been written and acknowledged
+		nGood := 1 + c.Rnd.Intn(2)
+		var file []byte
+		var written []c08Rec
+		for i := 0; i < nGood; i++ {
+			r := c08Rec{4, []byte{0x10, byte(i)}, c08RandBytes(c, 5+c.Rnd.Intn(300))}
+			raw, _ := c08Encode(r)
+			file = append(file, raw...)
+			written = append(written, r)
+		}
+		// the record in flight: a block-like record whose value embeds an encoded record at a 256-aligned offset
+		forged := c08Rec{4, []byte{0x66, 0x6f, 0x72, 0x67, 0x65, 0x64}, []byte("forged account state")}
+		emb, _ := c08Encode(forged)
+		key := c08RandBytes(c, 32)
+		key[0] |= 0x80
+		// outer layout: head 18 | list header 3 | key header 1 + 32 | value header 3 | value …
+		const valStart = 18 + 3 + 33 + 3
+		m := 1 + c.Rnd.Intn(2)
+		val := append(append(c08RandBytes(c, 256*m-valStart), emb...), c08RandBytes(c, 120+c.Rnd.Intn(300))...)
+		embedded := it%3 != 2
+		if !embedded {
+			val = c08RandBytes(c, len(val)) // control: an ordinary value
+		}
+		outer := c08Rec{1, key, val}
+		rawOuter, _ := c08Encode(outer)
+		bodyLen := c08BodyLen(rawOuter)
+		// torn behind the embedded record, inside the body
+		cut := 256*m + 256 + c.Rnd.Intn(18+bodyLen-(256*m+256))
+		torn := append(append([]byte{}, file...), rawOuter[:cut]...)
+		os.WriteFile(w.path(), torn, 0644)
+		c.Op("wload "+hex.EncodeToString(torn), fmt.Sprintf("len %d", len(torn)))
+		// restart 1
+		line, recs := w.restart()
+		c.Op("wrestart", line)
+		if !c08SameRecs(recs, written) {
+			c08Fail(c, "c08/torn-record-phantom", "restart after a torn tail does not deliver exactly the old records: "+line[:min(len(line), 200)], nil)
+		}
+		// a shorter Put arrives while the redelivered records are still pending
+		short := c08Rec{4, []byte{0x20, byte(it)}, c08RandBytes(c, 3+c.Rnd.Intn(200*m))}
+		c.Op(fmt.Sprintf("wput %d:%s:%s", short.Flg, hexOrDash(short.Key), hexOrDash(short.Val)), w.put(short))
+		written = append(written, short)
+		// crash, restart 2
+		line, recs = w.restart()
+		c.Op("wrestart", line)
+		cls := "control"
+		if embedded {
+			cls = "embedded"
+		}
+		if c08SameRecs(recs, written) {
+			c.Count("remnant:" + cls + ":intact")
+		} else {
+			c.Count("remnant:" + cls + ":phantom")
+			c08Fail(c, "c08/phantom-record/torn-remnant-not-truncated", fmt.Sprintf("tmp.data = %d acknowledged records + a torn %d-byte block record (cut at byte %d) whose value embeds an encoded record at file offset %d; restart (Offset = start of the torn record), Put of a %d-byte record while the redelivered ones are pending (no truncate), restart: the scan delivers %d records, the last one is flag %d key %x value %q — it was never written", nGood, len(rawOuter), cut, len(file)+256*m, 256, len(recs), recs[len(recs)-1].Flg, recs[len(recs)-1].Key, string(recs[len(recs)-1].Val)),
+				map[string]interface{}{"level": "FileQueue", "good": nGood, "cut": cut, "embedded_at": len(file) + 256*m})
+		}
+		// a third restart must be a fixed point (crash during recovery / right after it)
+		line3, recs3 := w.restart()
+		c.Op("wrestart", line3)
+		if !c08SameRecs(recs3, recs) {
+			c08Fail(c, "c08/restart-not-idempotent", "two restarts in a row deliver different records", nil)
+		}
+		w.q.Close()
 		os.RemoveAll(dir)
 	}
 }
